@@ -111,8 +111,8 @@ func suiteC16ErrPos(cfg Config, res *Result) {
 	seen := map[string]bool{}
 	var uniq []ProgCase
 	for _, c := range cases {
-		if !seen[c.Req()] {
-			seen[c.Req()] = true
+		if !seen[c.Key()] {
+			seen[c.Key()] = true
 			uniq = append(uniq, c)
 		}
 	}
